@@ -45,9 +45,10 @@ public:
 
     void peerClose()
     {
+        // as QAbstractSocket::disconnectFromHost: the state is Unconnected before either signal
         if (state() == QAbstractSocket::UnconnectedState) return;
-        Q_EMIT readChannelFinished();
         setSocketState(QAbstractSocket::UnconnectedState);
+        Q_EMIT readChannelFinished();
         Q_EMIT disconnected();
     }
 
